@@ -399,6 +399,16 @@ func c18R3(p *Prog, r *Report) {
 		if ro := fc.RecvObj(); ro != nil && strings.HasPrefix(t.key, "recv.") {
 			t.key = ro.Name() + strings.TrimPrefix(t.key, "recv")
 		}
+		// a key without a dot names a field of the value the function builds: the variable
+		// tracked is the local that field is given, whatever it is called
+		if !strings.Contains(t.key, ".") {
+			inits := fieldInits(fc, t.key)
+			if len(inits) == 1 {
+				if id, ok := ast.Unparen(inits[0]).(*ast.Ident); ok {
+					t.key = id.Name
+				}
+			}
+		}
 		// the key must occur in the function (anchor)
 		if !strings.Contains(fullStr(fc.Body), t.key) {
 			r.Fail(rule, fmt.Sprintf("%s.(*%s).%s:range:%s", t.rel, t.recv, t.fn, t.key), p.posStr(fc.Body.Pos()), "the option "+t.key+" is not validated in this function any more")
